@@ -1,14 +1,1844 @@
-//! C02 — not built yet.
-use crate::engine::{Ctx, Property};
+//! C02 — shaping is total and yields well-formed glyph runs.
+//!
+//! Generator: (font, faults, text, script, language, features, tuple, kerning, presentation,
+//! direction, vertical). Fonts are the per-script fixtures of the repository (intact, or with
+//! 1–4 byte-level faults confined to the bodies of GSUB/GPOS/GDEF/kern/morx — located with the
+//! harness' own sfnt directory reader — so the font still loads) and a few small synthetic
+//! layout fonts built with `fontgen` (cyclic contextual lookups, deep nesting, ligatures whose
+//! components run past the end of the text, cursive chains, a `kern`-only font and a `morx`
+//! font). Text is a token list resolved against the alphabet of the script (see c02_text.rs).
+//!
+//! Oracle (exactly the property statement): `map_glyphs → shape → glyph_positions` returns
+//! without panic/abort/stack overflow/hang; on the returned run (Ok and Err alike) every
+//! attachment index is inside the run, every attributed character is a character of the run
+//! submitted for shaping (the `map_glyphs` output) or U+25CC, for intact fonts every glyph id is
+//! below the glyph count, and `glyph_positions` returns Ok with one position per glyph or Err.
+
+use crate::engine::util::pick;
+use crate::engine::{fixtures, CaseResult, Ctx, Fail, Property, Rec};
+use crate::fontgen::basic::BasicFont;
+use crate::fontgen::buf::Buf;
+use crate::fontgen::sfnt::parse_directory;
+use allsorts::binary::read::ReadScope;
+use allsorts::font::MatchingPresentation;
+use allsorts::font_data::FontData;
+use allsorts::glyph_position::{GlyphLayout, TextDirection};
+use allsorts::gpos::Placement;
+use allsorts::gsub::{FeatureInfo, FeatureMask, Features};
+use allsorts::tables::variable_fonts::fvar::FvarTable;
+use allsorts::tables::{F2Dot14, FontTableProvider};
+use allsorts::Font;
+use arbitrary::Unstructured;
+use proptest::prelude::*;
+use std::collections::BTreeSet;
+use std::sync::OnceLock;
+
+#[path = "c02_text.rs"]
+pub mod text;
+use text::{alphabet_for, Tok};
 
 pub struct C02;
+
+// ------------------------------------------------------------------------------------------
+// fonts
+// ------------------------------------------------------------------------------------------
+
+/// (group name, alphabet / matching script tag, fixtures relative to tests/)
+const GROUPS: &[(&str, &[u8; 4], &[&str])] = &[
+    ("arabic", b"arab", &[
+        "fonts/arabic/KacstBook.ttf",
+        "fonts/arabic/NafeesNastaleeq.ttf",
+        "fonts/arabic/Scheherazade-Regular.ttf",
+        "fonts/arabic/ae_Arab.ttf",
+        "fonts/arabic/amiri-quran.ttf",
+        "fonts/arabic/amiri-regular.ttf",
+        "fonts/noto/NotoNaskhArabic-Regular.ttf",
+    ]),
+    ("syriac", b"syrc", &[
+        "fonts/syriac/SyrCOMAdiabene.otf",
+        "fonts/syriac/SyrCOMAntioch.otf",
+        "fonts/syriac/SyrCOMBatnan.otf",
+        "fonts/syriac/SyrCOMEdessa.otf",
+        "fonts/syriac/SyrCOMMalankara.otf",
+        "fonts/syriac/SyrCOMNisibin.otf",
+        "fonts/syriac/SyrCOMUrhoy.otf",
+        "fonts/noto/NotoSansSyriacEastern-Regular.ttf",
+    ]),
+    ("devanagari", b"deva", &[
+        "fonts/devanagari/AnnapurnaSIL-Regular.ttf",
+        "fonts/devanagari/lohit_hi.ttf",
+        "fonts/devanagari/sahadeva.ttf",
+        "fonts/noto/NotoSansDevanagari-Regular.ttf",
+        "fonts/noto/NotoSerifDevanagari-Regular.ttf",
+    ]),
+    ("bengali", b"beng", &[
+        "fonts/bengali/Lohit-Bengali.ttf",
+        "fonts/bengali/Siyamrupali_1_01.ttf",
+        "fonts/noto/NotoSansBengali-Regular.ttf",
+        "fonts/noto/NotoSerifBengali-Regular.ttf",
+    ]),
+    ("gurmukhi", b"guru", &["fonts/gurmukhi/Saab.ttf", "fonts/noto/NotoSansGurmukhi-Regular.ttf"]),
+    ("gujarati", b"gujr", &[
+        "fonts/gujarati/Rekha.ttf",
+        "fonts/gujarati/Samyak-Gujarati.ttf",
+        "fonts/gujarati/lohit_gu.ttf",
+        "fonts/gujarati/padmaa.ttf",
+        "fonts/noto/NotoSansGujarati-Regular.ttf",
+        "fonts/noto/NotoSerifGujarati-Regular.ttf",
+    ]),
+    ("oriya", b"orya", &["fonts/oriya/lohit_or.ttf", "fonts/oriya/utkalm.ttf", "fonts/noto/NotoSansOriya-Regular.ttf"]),
+    ("tamil", b"taml", &[
+        "fonts/tamil/TAMu_Kalyani.ttf",
+        "fonts/tamil/lohit_ta.ttf",
+        "fonts/noto/NotoSansTamil-Regular.ttf",
+        "fonts/noto/NotoSerifTamil-Regular.ttf",
+    ]),
+    ("telugu", b"telu", &[
+        "fonts/telugu/Mandali-Regular.ttf",
+        "fonts/telugu/lohit_te.ttf",
+        "fonts/noto/NotoSansTelugu-Regular.ttf",
+        "fonts/noto/NotoSerifTelugu-Regular.ttf",
+    ]),
+    ("kannada", b"knda", &[
+        "fonts/kannada/lohit_kn.ttf",
+        "fonts/noto/NotoSansKannada-Regular.ttf",
+        "fonts/noto/NotoSerifKannada-Regular.ttf",
+    ]),
+    ("malayalam", b"mlym", &[
+        "fonts/malayalam/Chilanka-Regular.ttf",
+        "fonts/malayalam/Dyuthi-Regular.ttf",
+        "fonts/malayalam/Rachana-Regular.ttf",
+        "fonts/malayalam/Rachana_w01.ttf",
+        "fonts/malayalam/lohit_ml.ttf",
+        "fonts/noto/NotoSansMalayalam-Regular.ttf",
+        "fonts/noto/NotoSerifMalayalam-Regular.ttf",
+    ]),
+    ("sinhala", b"sinh", &["fonts/noto/NotoSansSinhala-Regular.ttf", "fonts/noto/NotoSerifSinhala-Regular.ttf"]),
+    ("khmer", b"khmr", &[
+        "fonts/khmer/Battambang-Regular.ttf",
+        "fonts/noto/NotoSansKhmer-Regular.ttf",
+        "fonts/noto/NotoSerifKhmer-Regular.ttf",
+    ]),
+    ("myanmar", b"mymr", &["fonts/myanmar/Padauk-Regular.ttf"]),
+    ("thai", b"thai", &["fonts/noto/NotoSansThai-Regular.ttf"]),
+    ("lao", b"lao ", &["fonts/noto/NotoSansLao-Regular.ttf"]),
+    ("latin", b"latn", &[
+        "fonts/opentype/Klei.otf",
+        "fonts/opentype/OpenSans-Regular.ttf",
+        "fonts/opentype/SourceCodePro-Regular.otf",
+        "fonts/opentype/Ubuntu Mono with Numderline.ttf",
+        "fonts/opentype/cff2/SourceSans3-Instance.256.otf",
+        "fonts/opentype/cff2/SourceSans3.abc.otf",
+        "fonts/noto/NotoSansJP-Regular.otf",
+    ]),
+    ("variable", b"latn", &[
+        "fonts/opentype/NotoSans-VF.abc.ttf",
+        "fonts/opentype/cff2/SourceSansVariable-Roman.abc.otf",
+        "fonts/variable/Inter[slnt,wght].abc.ttf",
+        "fonts/variable/UnderlineTest-VF.ttf",
+    ]),
+];
+
+const LAYOUT_TAGS: &[&[u8; 4]] = &[b"GSUB", b"GPOS", b"GDEF", b"kern", b"morx"];
+
+pub struct LayoutTable {
+    pub tag: [u8; 4],
+    pub offset: usize,
+    pub len: usize,
+    /// byte position of the directory record (for the `Hide` fault)
+    pub record_at: usize,
+    /// structurally interesting 2-byte aligned positions inside the table (relative)
+    pub hot: Vec<u32>,
+}
+
+pub struct FontEntry {
+    pub group: &'static str,
+    pub name: String,
+    pub script: [u8; 4],
+    pub synthetic: bool,
+    pub bytes: Vec<u8>,
+    pub tables: Vec<LayoutTable>,
+    pub lang_tags: Vec<u32>,
+    pub feature_tags: Vec<u32>,
+    pub has_gsub_or_gpos: bool,
+}
+
+pub struct FontSet {
+    /// fonts grouped; groups without any readable font are dropped
+    pub groups: Vec<Vec<FontEntry>>,
+}
+
+static FONTS: OnceLock<FontSet> = OnceLock::new();
+
+pub fn fonts() -> &'static FontSet {
+    FONTS.get_or_init(|| {
+        let mut groups = Vec::new();
+        for (gname, script, paths) in GROUPS {
+            let mut g = Vec::new();
+            for p in paths.iter() {
+                if let Some(bytes) = fixtures::read(p) {
+                    if let Some(e) = make_entry(gname, p.to_string(), **script, false, bytes) {
+                        g.push(e);
+                    }
+                }
+            }
+            if !g.is_empty() {
+                groups.push(g);
+            }
+        }
+        let mut g = Vec::new();
+        for (name, script, bytes) in synthetic_fonts() {
+            let name = if name == "synthetic/multi-script" { format!("{}:{}", name, String::from_utf8_lossy(&script)) } else { name.to_string() };
+            if let Some(e) = make_entry("synthetic", name, script, true, bytes) {
+                g.push(e);
+            }
+        }
+        if !g.is_empty() {
+            groups.push(g);
+        }
+        FontSet { groups }
+    })
+}
+
+fn make_entry(group: &'static str, name: String, script: [u8; 4], synthetic: bool, bytes: Vec<u8>) -> Option<FontEntry> {
+    let (_, dir) = parse_directory(&bytes)?;
+    let mut tables = Vec::new();
+    let mut lang_tags = BTreeSet::new();
+    let mut feature_tags = BTreeSet::new();
+    let mut has = false;
+    for e in &dir {
+        if !LAYOUT_TAGS.iter().any(|t| **t == e.tag) {
+            continue;
+        }
+        let (o, l) = (e.offset as usize, e.length as usize);
+        let body = match bytes.get(o..o.checked_add(l)?) {
+            Some(b) => b,
+            None => continue,
+        };
+        let hot = match &e.tag {
+            b"GSUB" | b"GPOS" => {
+                has = true;
+                let s = scan_layout(body, &e.tag == b"GPOS");
+                lang_tags.extend(s.lang_tags);
+                feature_tags.extend(s.feature_tags);
+                s.hot
+            }
+            b"GDEF" => scan_gdef(body),
+            b"kern" => scan_kern(body),
+            _ => (0..body.len().min(1024) as u32 / 2).map(|i| i * 2).collect(),
+        };
+        let hot: Vec<u32> = hot.into_iter().filter(|p| (*p as usize) + 2 <= l).collect();
+        tables.push(LayoutTable { tag: e.tag, offset: o, len: l, record_at: e.record_at, hot });
+    }
+    Some(FontEntry {
+        group,
+        name,
+        script,
+        synthetic,
+        bytes,
+        tables,
+        lang_tags: lang_tags.into_iter().collect(),
+        feature_tags: feature_tags.into_iter().collect(),
+        has_gsub_or_gpos: has,
+    })
+}
+
+// ---- independent mini reader of the OpenType layout common table formats: only used to find
+// ---- field positions worth corrupting and the tags a font declares.
+
+fn r16(t: &[u8], o: usize) -> Option<usize> {
+    t.get(o..o.checked_add(2)?).map(|b| u16::from_be_bytes([b[0], b[1]]) as usize)
+}
+fn r32(t: &[u8], o: usize) -> Option<usize> {
+    t.get(o..o.checked_add(4)?).map(|b| u32::from_be_bytes([b[0], b[1], b[2], b[3]]) as usize)
+}
+
+struct LayoutScan {
+    hot: Vec<u32>,
+    lang_tags: Vec<u32>,
+    feature_tags: Vec<u32>,
+}
+
+const HOT_CAP: usize = 40_000;
+
+fn scan_layout(t: &[u8], is_gpos: bool) -> LayoutScan {
+    let mut hot: BTreeSet<u32> = BTreeSet::new();
+    let mut langs = Vec::new();
+    let mut feats = Vec::new();
+    let h = |hot: &mut BTreeSet<u32>, o: usize, words: usize| {
+        for k in 0..words {
+            if hot.len() < HOT_CAP {
+                hot.insert((o + 2 * k) as u32);
+            }
+        }
+    };
+    h(&mut hot, 0, 5);
+    if r16(t, 2) == Some(1) {
+        h(&mut hot, 10, 2);
+        if let Some(fv) = r32(t, 10) {
+            if fv != 0 {
+                h(&mut hot, fv, 4);
+                let n = r32(t, fv + 4).unwrap_or(0).min(8);
+                for i in 0..n {
+                    let rec = fv + 8 + 8 * i;
+                    h(&mut hot, rec, 4);
+                    for k in 0..2 {
+                        if let Some(o) = r32(t, rec + 4 * k) {
+                            h(&mut hot, fv + o, 6);
+                        }
+                    }
+                }
+            }
+        }
+    }
+    // script list
+    if let Some(sl) = r16(t, 4) {
+        let n = r16(t, sl).unwrap_or(0).min(64);
+        h(&mut hot, sl, 1);
+        for i in 0..n {
+            let rec = sl + 2 + 6 * i;
+            h(&mut hot, rec, 3);
+            let st = match r16(t, rec + 4) {
+                Some(o) => sl + o,
+                None => continue,
+            };
+            h(&mut hot, st, 2);
+            let mut langsys = Vec::new();
+            if let Some(d) = r16(t, st) {
+                if d != 0 {
+                    langsys.push(st + d);
+                }
+            }
+            let ln = r16(t, st + 2).unwrap_or(0).min(32);
+            for j in 0..ln {
+                let lrec = st + 4 + 6 * j;
+                h(&mut hot, lrec, 3);
+                if let Some(tag) = r32(t, lrec) {
+                    langs.push(tag as u32);
+                }
+                if let Some(o) = r16(t, lrec + 4) {
+                    langsys.push(st + o);
+                }
+            }
+            for ls in langsys {
+                h(&mut hot, ls, 6);
+            }
+        }
+    }
+    // feature list
+    if let Some(fl) = r16(t, 6) {
+        let n = r16(t, fl).unwrap_or(0).min(256);
+        h(&mut hot, fl, 1);
+        for i in 0..n {
+            let rec = fl + 2 + 6 * i;
+            h(&mut hot, rec + 4, 1);
+            if let Some(tag) = r32(t, rec) {
+                feats.push(tag as u32);
+            }
+            if let Some(o) = r16(t, rec + 4) {
+                h(&mut hot, fl + o, 4);
+            }
+        }
+    }
+    // lookup list
+    if let Some(ll) = r16(t, 8) {
+        let n = r16(t, ll).unwrap_or(0).min(1024);
+        h(&mut hot, ll, 1);
+        for i in 0..n {
+            h(&mut hot, ll + 2 + 2 * i, 1);
+            let lt = match r16(t, ll + 2 + 2 * i) {
+                Some(o) => ll + o,
+                None => continue,
+            };
+            h(&mut hot, lt, 3);
+            let ty = r16(t, lt).unwrap_or(0);
+            let flag = r16(t, lt + 2).unwrap_or(0);
+            let cnt = r16(t, lt + 4).unwrap_or(0).min(64);
+            if flag & 0x10 != 0 {
+                h(&mut hot, lt + 6 + 2 * cnt, 1);
+            }
+            for j in 0..cnt {
+                h(&mut hot, lt + 6 + 2 * j, 1);
+                let mut sub = match r16(t, lt + 6 + 2 * j) {
+                    Some(o) => lt + o,
+                    None => continue,
+                };
+                let ext = if is_gpos { 9 } else { 7 };
+                if ty == ext {
+                    h(&mut hot, sub, 4);
+                    match r32(t, sub + 4) {
+                        Some(o) => sub += o,
+                        None => continue,
+                    }
+                }
+                h(&mut hot, sub, 8);
+                // one level down: coverage / class definitions / sets referenced by the header
+                for k in 1..6 {
+                    if let Some(o) = r16(t, sub + 2 * k) {
+                        if o >= 4 && sub + o + 2 <= t.len() {
+                            h(&mut hot, sub + o, 4);
+                        }
+                    }
+                }
+            }
+        }
+    }
+    LayoutScan { hot: hot.into_iter().collect(), lang_tags: langs, feature_tags: feats }
+}
+
+fn scan_gdef(t: &[u8]) -> Vec<u32> {
+    let mut hot = BTreeSet::new();
+    for k in 0..9usize {
+        hot.insert((2 * k) as u32);
+    }
+    for k in 2..7usize {
+        if let Some(o) = r16(t, 2 * k) {
+            if o != 0 {
+                for w in 0..6 {
+                    hot.insert((o + 2 * w) as u32);
+                }
+            }
+        }
+    }
+    hot.into_iter().collect()
+}
+
+fn scan_kern(t: &[u8]) -> Vec<u32> {
+    let mut hot = BTreeSet::new();
+    hot.insert(0);
+    hot.insert(2);
+    let n = r16(t, 2).unwrap_or(0).min(16);
+    let mut at = 4usize;
+    for _ in 0..n {
+        for w in 0..16 {
+            hot.insert((at + 2 * w) as u32);
+        }
+        match r16(t, at + 2) {
+            Some(l) if l >= 6 => at += l,
+            _ => break,
+        }
+    }
+    hot.into_iter().collect()
+}
+
+// ------------------------------------------------------------------------------------------
+// synthetic layout fonts (fontgen; encoders written from the OpenType / AAT specifications)
+// ------------------------------------------------------------------------------------------
+
+fn tagv(t: &[u8; 4]) -> u32 {
+    u32::from_be_bytes(*t)
+}
+
+/// GSUB/GPOS table with one script (DFLT) + `latn`, default langsys listing all features.
+/// `features`: (tag, lookup indices); `lookups`: (type, flag, subtables).
+fn layout_table(features: &[(&[u8; 4], Vec<u16>)], lookups: &[(u16, u16, Vec<Vec<u8>>)]) -> Vec<u8> {
+    // script list
+    let mut langsys = Buf::new();
+    langsys.u16(0).u16(0xFFFF).u16(features.len() as u16);
+    for i in 0..features.len() {
+        langsys.u16(i as u16);
+    }
+    let langsys = langsys.into_vec();
+    let mut script = Buf::new();
+    script.u16(4).u16(0).bytes(&langsys);
+    let script = script.into_vec();
+    let mut sl = Buf::new();
+    sl.u16(2);
+    sl.tag(b"DFLT").u16(2 + 12);
+    sl.tag(b"latn").u16(2 + 12);
+    sl.bytes(&script);
+    let sl = sl.into_vec();
+    // feature list
+    let mut fl = Buf::new();
+    fl.u16(features.len() as u16);
+    let mut off = 2 + 6 * features.len();
+    let mut bodies = Vec::new();
+    for (tag, idx) in features {
+        fl.tag(tag).u16(off as u16);
+        let mut b = Buf::new();
+        b.u16(0).u16(idx.len() as u16);
+        for i in idx {
+            b.u16(*i);
+        }
+        off += b.len();
+        bodies.push(b.into_vec());
+    }
+    for b in bodies {
+        fl.bytes(&b);
+    }
+    let fl = fl.into_vec();
+    // lookup list
+    let mut ll = Buf::new();
+    ll.u16(lookups.len() as u16);
+    let mut off = 2 + 2 * lookups.len();
+    let mut bodies = Vec::new();
+    for (ty, flag, subs) in lookups {
+        ll.u16(off as u16);
+        let mut b = Buf::new();
+        b.u16(*ty).u16(*flag).u16(subs.len() as u16);
+        let mut so = 6 + 2 * subs.len();
+        for s in subs {
+            b.u16(so as u16);
+            so += s.len();
+        }
+        for s in subs {
+            b.bytes(s);
+        }
+        off += b.len();
+        bodies.push(b.into_vec());
+    }
+    for b in bodies {
+        ll.bytes(&b);
+    }
+    let ll = ll.into_vec();
+    let mut t = Buf::new();
+    t.u16(1).u16(0).u16(10).u16((10 + sl.len()) as u16).u16((10 + sl.len() + fl.len()) as u16);
+    t.bytes(&sl).bytes(&fl).bytes(&ll);
+    t.into_vec()
+}
+
+fn coverage1(glyphs: &[u16]) -> Vec<u8> {
+    let mut b = Buf::new();
+    b.u16(1).u16(glyphs.len() as u16);
+    for g in glyphs {
+        b.u16(*g);
+    }
+    b.into_vec()
+}
+
+/// SingleSubst format 1 (delta)
+fn single_subst(cov: &[u16], delta: i16) -> Vec<u8> {
+    let mut b = Buf::new();
+    b.u16(1).u16(6).i16(delta).bytes(&coverage1(cov));
+    b.into_vec()
+}
+
+/// MultipleSubst format 1: every covered glyph -> seq
+fn multiple_subst(cov: &[u16], seq: &[u16]) -> Vec<u8> {
+    let mut b = Buf::new();
+    let n = cov.len();
+    b.u16(1).u16((6 + 2 * n) as u16).u16(n as u16);
+    let covb = coverage1(cov);
+    let seq_len = 2 + 2 * seq.len();
+    for i in 0..n {
+        b.u16((6 + 2 * n + covb.len() + i * seq_len) as u16);
+    }
+    b.bytes(&covb);
+    for _ in 0..n {
+        b.u16(seq.len() as u16);
+        for g in seq {
+            b.u16(*g);
+        }
+    }
+    b.into_vec()
+}
+
+/// LigatureSubst format 1: first glyph `first`, ligatures (components after the first, result)
+fn ligature_subst(first: u16, ligs: &[(Vec<u16>, u16)]) -> Vec<u8> {
+    let mut set = Buf::new();
+    set.u16(ligs.len() as u16);
+    let mut off = 2 + 2 * ligs.len();
+    let mut bodies = Vec::new();
+    for (comps, lig) in ligs {
+        set.u16(off as u16);
+        let mut l = Buf::new();
+        l.u16(*lig).u16((comps.len() + 1) as u16);
+        for c in comps {
+            l.u16(*c);
+        }
+        off += l.len();
+        bodies.push(l.into_vec());
+    }
+    for b in bodies {
+        set.bytes(&b);
+    }
+    let covb = coverage1(&[first]);
+    let mut b = Buf::new();
+    b.u16(1).u16(8).u16(1).u16((8 + covb.len()) as u16).bytes(&covb).bytes(&set.into_vec());
+    b.into_vec()
+}
+
+/// Context format 1 (GSUB 5 / GPOS 7): first glyph `first`, one rule: rest-of-input + records
+fn context1(first: u16, rest: &[u16], recs: &[(u16, u16)]) -> Vec<u8> {
+    let mut rule = Buf::new();
+    rule.u16((rest.len() + 1) as u16).u16(recs.len() as u16);
+    for g in rest {
+        rule.u16(*g);
+    }
+    for (i, l) in recs {
+        rule.u16(*i).u16(*l);
+    }
+    let covb = coverage1(&[first]);
+    let mut b = Buf::new();
+    b.u16(1).u16(8).u16(1).u16((8 + covb.len()) as u16).bytes(&covb);
+    b.u16(1).u16(4).bytes(&rule.into_vec());
+    b.into_vec()
+}
+
+/// Chained context format 3
+fn chain3(back: &[&[u16]], input: &[&[u16]], ahead: &[&[u16]], recs: &[(u16, u16)]) -> Vec<u8> {
+    let n = back.len() + input.len() + ahead.len();
+    let header = 2 + 2 + 2 * back.len() + 2 + 2 * input.len() + 2 + 2 * ahead.len() + 2 + 4 * recs.len();
+    let mut covs = Vec::new();
+    let mut off = header;
+    let mut offs = Vec::new();
+    for c in back.iter().chain(input.iter()).chain(ahead.iter()) {
+        let cb = coverage1(c);
+        offs.push(off as u16);
+        off += cb.len();
+        covs.push(cb);
+    }
+    debug_assert_eq!(offs.len(), n);
+    let mut b = Buf::new();
+    b.u16(3);
+    let mut k = 0;
+    for part in [back.len(), input.len(), ahead.len()] {
+        b.u16(part as u16);
+        for _ in 0..part {
+            b.u16(offs[k]);
+            k += 1;
+        }
+    }
+    b.u16(recs.len() as u16);
+    for (i, l) in recs {
+        b.u16(*i).u16(*l);
+    }
+    for c in covs {
+        b.bytes(&c);
+    }
+    b.into_vec()
+}
+
+fn anchor(x: i16, y: i16) -> Vec<u8> {
+    let mut b = Buf::new();
+    b.u16(1).i16(x).i16(y);
+    b.into_vec()
+}
+
+/// CursivePos format 1: every covered glyph has entry and exit anchors
+fn cursive_pos(cov: &[u16]) -> Vec<u8> {
+    let covb = coverage1(cov);
+    let n = cov.len();
+    let mut b = Buf::new();
+    let base = 6 + 4 * n;
+    b.u16(1).u16(base as u16).u16(n as u16);
+    let mut off = base + covb.len();
+    for _ in 0..n {
+        b.u16(off as u16).u16((off + 6) as u16);
+        off += 12;
+    }
+    b.bytes(&covb);
+    for i in 0..n {
+        b.bytes(&anchor(10 + i as i16, 20)).bytes(&anchor(300, -50 - i as i16));
+    }
+    b.into_vec()
+}
+
+/// MarkBasePos / MarkMarkPos format 1 with one class
+fn mark_base_pos(marks: &[u16], bases: &[u16]) -> Vec<u8> {
+    let mcov = coverage1(marks);
+    let bcov = coverage1(bases);
+    let mut marr = Buf::new();
+    marr.u16(marks.len() as u16);
+    let mut off = 2 + 4 * marks.len();
+    for _ in marks {
+        marr.u16(0).u16(off as u16);
+        off += 6;
+    }
+    for i in 0..marks.len() {
+        marr.bytes(&anchor(i as i16, 500));
+    }
+    let marr = marr.into_vec();
+    let mut barr = Buf::new();
+    barr.u16(bases.len() as u16);
+    let mut off = 2 + 2 * bases.len();
+    for _ in bases {
+        barr.u16(off as u16);
+        off += 6;
+    }
+    for i in 0..bases.len() {
+        barr.bytes(&anchor(250, 700 + i as i16));
+    }
+    let barr = barr.into_vec();
+    let mut b = Buf::new();
+    let h = 12;
+    b.u16(1).u16(h as u16).u16((h + mcov.len()) as u16).u16(1);
+    b.u16((h + mcov.len() + bcov.len()) as u16).u16((h + mcov.len() + bcov.len() + marr.len()) as u16);
+    b.bytes(&mcov).bytes(&bcov).bytes(&marr).bytes(&barr);
+    b.into_vec()
+}
+
+/// SinglePos format 1 with a ValueRecord (xPlacement, yPlacement, xAdvance)
+fn single_pos(cov: &[u16], xp: i16, yp: i16, xa: i16) -> Vec<u8> {
+    let mut b = Buf::new();
+    b.u16(1).u16(12).u16(0x0007).i16(xp).i16(yp).i16(xa).bytes(&coverage1(cov));
+    b.into_vec()
+}
+
+/// PairPos format 1: first glyph, pairs (second, xAdvance of first)
+fn pair_pos(first: u16, pairs: &[(u16, i16)]) -> Vec<u8> {
+    let covb = coverage1(&[first]);
+    let mut b = Buf::new();
+    b.u16(1).u16(12).u16(0x0004).u16(0).u16(1).u16((12 + covb.len()) as u16).bytes(&covb);
+    b.u16(pairs.len() as u16);
+    for (g, v) in pairs {
+        b.u16(*g).i16(*v);
+    }
+    b.into_vec()
+}
+
+fn gdef_classes(classes: &[(u16, u16, u16)]) -> Vec<u8> {
+    let mut b = Buf::new();
+    b.u16(1).u16(0).u16(12).u16(0).u16(0).u16(0);
+    b.u16(2).u16(classes.len() as u16);
+    for (s, e, c) in classes {
+        b.u16(*s).u16(*e).u16(*c);
+    }
+    b.into_vec()
+}
+
+/// `kern` version 0 with one format 0 subtable (horizontal, kerning values) per pair list
+fn kern_table(subtables: &[&[(u16, u16, i16)]]) -> Vec<u8> {
+    let mut b = Buf::new();
+    b.u16(0).u16(subtables.len() as u16);
+    for pairs in subtables {
+        let n = pairs.len() as u16;
+        let (sr, es, rs) = crate::fontgen::sfnt::search_fields(n, 6);
+        b.u16(0).u16(14 + 6 * n).u16(0x0001);
+        b.u16(n).u16(sr).u16(es).u16(rs);
+        for (l, r, v) in pairs.iter() {
+            b.u16(*l).u16(*r).i16(*v);
+        }
+    }
+    b.into_vec()
+}
+
+fn kern_format0(pairs: &[(u16, u16, i16)]) -> Vec<u8> {
+    kern_table(&[pairs])
+}
+
+/// A minimal `morx` (version 2): one chain, default flags 1, one feature entry, and two
+/// subtables: a non-contextual (type 4, lookup format 6) and a ligature (type 2) subtable with
+/// a small extended state table.
+fn morx_table() -> Vec<u8> {
+    // --- non-contextual subtable body: lookup format 6 (single table)
+    let mut nc = Buf::new();
+    nc.u16(6).u16(4).u16(2).u16(8).u16(1).u16(0); // format, unitSize, nUnits, searchRange, entrySelector, rangeShift
+    nc.u16(3).u16(5); // glyph 3 -> 5
+    nc.u16(4).u16(6); // glyph 4 -> 6
+    nc.u16(0xFFFF).u16(0xFFFF);
+    let nc = nc.into_vec();
+    // --- ligature subtable: classes: 4 = glyph 7 ('f'), 5 = glyph 8 ('i')
+    // STXHeader: nClasses, classTableOffset, stateArrayOffset, entryTableOffset (u32 each),
+    // then ligActionOffset, componentOffset, ligatureOffset
+    let n_classes = 6u32;
+    let mut class = Buf::new();
+    class.u16(6).u16(4).u16(2).u16(8).u16(1).u16(0);
+    class.u16(7).u16(4);
+    class.u16(8).u16(5);
+    class.u16(0xFFFF).u16(0xFFFF);
+    let class = class.into_vec();
+    // states: 0 start-of-text, 1 start-of-line, 2 saw f
+    let mut states = Buf::new();
+    for row in [[0u16, 0, 0, 0, 1, 0], [0, 0, 0, 0, 1, 0], [0, 0, 0, 0, 1, 2]] {
+        for e in row {
+            states.u16(e);
+        }
+    }
+    let states = states.into_vec();
+    // entries: (newState, flags, ligActionIndex)
+    let mut entries = Buf::new();
+    entries.u16(0).u16(0).u16(0); // 0: nothing
+    entries.u16(2).u16(0x8000).u16(0); // 1: push f, go to state 2
+    entries.u16(0).u16(0xA000).u16(0); // 2: push i, perform action
+    let entries = entries.into_vec();
+    let mut actions = Buf::new();
+    actions.u32(0x0000_0000 | 0); // component i: offset 0, not last
+    actions.u32(0x8000_0000 | 0); // component f: last, store
+    let actions = actions.into_vec();
+    let mut comps = Buf::new();
+    for _ in 0..12 {
+        comps.u16(0);
+    }
+    let comps = comps.into_vec();
+    let mut ligs = Buf::new();
+    ligs.u16(9).u16(9);
+    let ligs = ligs.into_vec();
+    let hdr = 28usize;
+    let class_off = hdr;
+    let state_off = class_off + class.len();
+    let entry_off = state_off + states.len();
+    let act_off = entry_off + entries.len();
+    let comp_off = act_off + actions.len();
+    let lig_off = comp_off + comps.len();
+    let mut lg = Buf::new();
+    lg.u32(n_classes).u32(class_off as u32).u32(state_off as u32).u32(entry_off as u32);
+    lg.u32(act_off as u32).u32(comp_off as u32).u32(lig_off as u32);
+    lg.bytes(&class).bytes(&states).bytes(&entries).bytes(&actions).bytes(&comps).bytes(&ligs);
+    let lg = lg.into_vec();
+    // subtables: length u32, coverage u32 (low byte = type), subFeatureFlags u32
+    let mut subs = Buf::new();
+    subs.u32((12 + nc.len()) as u32).u32(4).u32(1).bytes(&nc);
+    subs.u32((12 + lg.len()) as u32).u32(2).u32(1).bytes(&lg);
+    let subs = subs.into_vec();
+    // chain: defaultFlags, chainLength, nFeatureEntries, nSubtables, feature entries
+    let mut chain = Buf::new();
+    let chain_len = 16 + 12 + subs.len();
+    chain.u32(1).u32(chain_len as u32).u32(1).u32(2);
+    chain.u16(1).u16(2).u32(1).u32(0xFFFF_FFFF); // ligatures / common ligatures on
+    chain.bytes(&subs);
+    let mut t = Buf::new();
+    t.u16(2).u16(0).u32(1).bytes(&chain.into_vec());
+    t.into_vec()
+}
+
+/// Glyph ids of the synthetic fonts: 'a'..'z' -> 1..26, digits '0'..'9' -> 27..36,
+/// U+0301 -> 37, U+0302 -> 38, U+25CC -> 39, space -> 40, '/' -> 41; 42..59 unencoded.
+fn synthetic_base() -> BasicFont {
+    let mut f = BasicFont::with_glyphs(60);
+    for i in 0..26u32 {
+        f.cmap.insert(0x61 + i, 1 + i as u16);
+        f.cmap.insert(0x41 + i, 1 + i as u16);
+    }
+    for i in 0..10u32 {
+        f.cmap.insert(0x30 + i, 27 + i as u16);
+    }
+    f.cmap.insert(0x301, 37);
+    f.cmap.insert(0x302, 38);
+    f.cmap.insert(0x25CC, 39);
+    f.cmap.insert(0x20, 40);
+    f.cmap.insert(0x2F, 41);
+    f
+}
+
+fn synthetic_fonts() -> Vec<(&'static str, [u8; 4], Vec<u8>)> {
+    let mut out = Vec::new();
+    let gdef = gdef_classes(&[(1, 36, 1), (37, 38, 3), (42, 50, 2)]);
+    // 1. contextual lookups that reference each other cyclically, nested deeper than the limit
+    {
+        let mut f = synthetic_base();
+        let lookups = vec![
+            (5u16, 0u16, vec![context1(1, &[2], &[(0, 1), (1, 2)])]), // a b -> apply 1 at 0, 2 at 1
+            (5, 0, vec![context1(1, &[2], &[(0, 2), (0, 0)])]),      // cycle back to 0
+            (5, 0, vec![context1(2, &[], &[(0, 3)]), context1(1, &[2, 3], &[(2, 0), (0, 1)])]),
+            (6, 0, vec![chain3(&[&[1, 2, 3]], &[&[1, 2, 3], &[1, 2, 3]], &[&[3, 4]], &[(0, 4), (1, 0), (5, 4)])]),
+            (1, 0, vec![single_subst(&[1, 2, 3, 4], 1)]),
+            (2, 0, vec![multiple_subst(&[5, 6], &[1, 2, 1, 2]), multiple_subst(&[7], &[])]),
+            (4, 0, vec![ligature_subst(3, &[(vec![3, 3, 3, 3, 3, 3, 3], 42), (vec![4], 43), (vec![], 44)])]),
+            (4, 8, vec![ligature_subst(9, &[(vec![9, 9], 45), (vec![10, 11, 12, 13, 14, 15, 16, 17], 46)])]),
+        ];
+        let gsub = layout_table(
+            &[(b"calt", vec![0, 3]), (b"ccmp", vec![5]), (b"liga", vec![6, 7]), (b"clig", vec![1, 2]), (b"rlig", vec![4])],
+            &lookups,
+        );
+        f.extra.push((*b"GSUB", gsub));
+        f.extra.push((*b"GDEF", gdef.clone()));
+        out.push(("synthetic/cyclic-context-gsub", *b"latn", f.build()));
+    }
+    // 2. GPOS: cursive chain over every letter, mark attachment, contextual positioning cycles
+    {
+        let mut f = synthetic_base();
+        let letters: Vec<u16> = (1..=26).collect();
+        let lookups = vec![
+            (3u16, 1u16, vec![cursive_pos(&letters)]),
+            (3, 0, vec![cursive_pos(&letters[..13])]),
+            (4, 0, vec![mark_base_pos(&[37, 38], &letters)]),
+            (6, 0, vec![mark_base_pos(&[37, 38], &[37, 38])]),
+            (1, 0, vec![single_pos(&letters, 32767, 32767, 32767), single_pos(&[27, 28, 29], -32768, -32768, -32768)]),
+            (2, 0, vec![pair_pos(1, &[(2, -50), (3, 32767)]), pair_pos(2, &[(1, -32768)])]),
+            (7, 0, vec![context1(1, &[2, 3], &[(0, 4), (1, 5), (2, 6), (3, 0)])]),
+            (7, 0, vec![context1(2, &[3], &[(0, 6), (1, 2), (0, 0)])]),
+            (8, 0, vec![chain3(&[&[37, 38]], &[&letters, &[37, 38]], &[], &[(1, 2), (0, 4), (1, 3)])]),
+        ];
+        let gpos = layout_table(
+            &[(b"curs", vec![0, 1]), (b"mark", vec![2, 4]), (b"mkmk", vec![3]), (b"kern", vec![5, 6, 7]), (b"dist", vec![8, 4])],
+            &lookups,
+        );
+        f.extra.push((*b"GPOS", gpos));
+        f.extra.push((*b"GDEF", gdef.clone()));
+        out.push(("synthetic/cursive-mark-gpos", *b"latn", f.build()));
+    }
+    // 3. GSUB + GPOS together, used with complex script tags too (DFLT script catches them)
+    {
+        let mut f = synthetic_base();
+        // map a few complex-script characters onto the letters so that the syllable machines
+        // run with real glyphs: Devanagari ka..ha -> 1..26 (wrapping), virama, nukta, matra i
+        for i in 0..37u32 {
+            f.cmap.insert(0x0915 + i, 1 + (i % 26) as u16);
+        }
+        f.cmap.insert(0x094D, 37);
+        f.cmap.insert(0x093C, 38);
+        f.cmap.insert(0x093F, 36);
+        f.cmap.insert(0x200D, 40);
+        f.cmap.insert(0x200C, 40);
+        let all: Vec<u16> = (1..=41).collect();
+        let lookups = vec![
+            (4u16, 0u16, vec![ligature_subst(1, &[(vec![37, 2], 42), (vec![37], 43)]), ligature_subst(16, &[(vec![37], 47)])]),
+            (1, 0, vec![single_subst(&all, 18)]),
+            (2, 0, vec![multiple_subst(&[36], &[36, 36, 36])]),
+            (6, 0, vec![chain3(&[], &[&all, &[37]], &[&all], &[(0, 0), (1, 1), (0, 2)])]),
+            (5, 0, vec![context1(37, &[37], &[(0, 1), (1, 1), (2, 1)])]),
+        ];
+        let feats: Vec<(&[u8; 4], Vec<u16>)> = vec![
+            (b"akhn", vec![0]),
+            (b"rphf", vec![0]),
+            (b"half", vec![0, 4]),
+            (b"pres", vec![3]),
+            (b"blwf", vec![2]),
+            (b"nukt", vec![0]),
+            (b"init", vec![1]),
+            (b"fina", vec![1]),
+            (b"medi", vec![3]),
+            (b"liga", vec![0]),
+            (b"locl", vec![2]),
+            (b"pref", vec![0]),
+            (b"pstf", vec![4]),
+            (b"rvrn", vec![1]),
+        ];
+        f.extra.push((*b"GSUB", layout_table(&feats, &lookups)));
+        let glookups = vec![(4u16, 0u16, vec![mark_base_pos(&[37, 38], &all)]), (3, 0, vec![cursive_pos(&all)])];
+        f.extra.push((*b"GPOS", layout_table(&[(b"abvm", vec![0]), (b"curs", vec![1]), (b"mark", vec![0])], &glookups)));
+        f.extra.push((*b"GDEF", gdef.clone()));
+        // variable, so that a tuple can be passed and `rvrn` is applied ahead of the shapers
+        let axis = crate::fontgen::var::AxisModel { tag: *b"wght", min: 100 << 16, default: 400 << 16, max: 900 << 16, flags: 0, name_id: 256 };
+        f.extra.push((*b"fvar", crate::fontgen::var::fvar_table(&[axis], &[], 0)));
+        out.push(("synthetic/indic-features", *b"deva", f.build()));
+    }
+    // 3b. one font for every complex shaper: the characters of all alphabets are mapped onto
+    // the 59 glyphs, and every feature tag the shapers ask for exists (script DFLT) and points
+    // at small lookups, so that reordering, feature masks and would-apply tests all do work.
+    {
+        let mut f = synthetic_base();
+        for a in text::ALPHABETS.iter().filter(|a| a.tag != b"latn") {
+            for c in a.halant {
+                f.cmap.insert(*c, 37);
+            }
+            for c in a.nukta {
+                f.cmap.insert(*c, 38);
+            }
+            for (lo, hi) in a.cons.iter().chain(a.matra.iter()).chain(a.marks.iter()) {
+                for c in *lo..=*hi {
+                    let mark = text::in_ranges(a.matra, c) || text::in_ranges(a.marks, c);
+                    f.cmap.entry(c).or_insert(if mark { 27 + (c % 10) as u16 } else { 1 + (c % 26) as u16 });
+                }
+            }
+            for c in a.special.iter().chain(a.ra.iter()).chain(a.prebase.iter()) {
+                f.cmap.entry(*c).or_insert(1 + (*c % 41) as u16);
+            }
+        }
+        f.cmap.insert(0x200D, 40);
+        f.cmap.insert(0x200C, 41);
+        let all: Vec<u16> = (1..=41).collect();
+        let letters: Vec<u16> = (1..=26).collect();
+        let mut lig_first_letter = Vec::new();
+        for g in [1u16, 2, 3, 5, 8, 13, 18, 21, 26] {
+            lig_first_letter.push(ligature_subst(g, &[(vec![37, g + 1], 42), (vec![37], 43), (vec![38], 44), (vec![40], 45)]));
+        }
+        let halant_first = vec![ligature_subst(37, &[(vec![1], 46), (vec![2], 47), (vec![18], 48), (vec![40], 49), (vec![41, 3], 50), (vec![37], 51)])];
+        let lookups = vec![
+            (1u16, 0u16, vec![single_subst(&all, 1)]),                 // 0
+            (4, 0, lig_first_letter),                                   // 1
+            (4, 0, halant_first),                                       // 2
+            (2, 0, vec![multiple_subst(&[27, 30, 33], &[28, 37, 29])]), // 3
+            (6, 0, vec![chain3(&[], &[&all, &[37]], &[&all], &[(0, 0), (1, 2), (0, 1)])]), // 4
+            (5, 0, vec![context1(37, &[37], &[(0, 0), (1, 0)])]),       // 5
+            (1, 0, vec![single_subst(&(42..=59).collect::<Vec<u16>>(), -20)]), // 6
+            (4, 8, vec![ligature_subst(1, &[(vec![2], 52), (vec![1, 1], 53)]), ligature_subst(4, &[(vec![5, 6], 54)])]), // 7: ignore marks
+            (2, 0, vec![multiple_subst(&[40, 41], &[])]),               // 8: deletion
+            (6, 8, vec![chain3(&[&letters], &[&letters], &[&letters], &[(0, 1), (0, 3)])]), // 9
+            (1, 2, vec![single_subst(&[37, 38], 18)]),                  // 10: ignore base glyphs
+        ];
+        let tags: &[&[u8; 4]] = &[
+            b"locl", b"ccmp", b"nukt", b"akhn", b"rphf", b"rkrf", b"pref", b"blwf", b"abvf", b"half", b"pstf", b"vatu", b"cjct",
+            b"cfar", b"init", b"pres", b"abvs", b"blws", b"psts", b"haln", b"isol", b"fina", b"fin2", b"fin3", b"medi", b"med2",
+            b"rlig", b"calt", b"liga", b"clig", b"mset", b"rvrn", b"dlig", b"frac", b"smcp",
+        ];
+        let feats: Vec<(&[u8; 4], Vec<u16>)> = tags
+            .iter()
+            .enumerate()
+            .map(|(i, t)| {
+                let a = (i * 7 + 1) % lookups.len();
+                let b = (i * 3 + 2) % lookups.len();
+                (*t, if i % 3 == 0 { vec![a as u16] } else { vec![a.min(b) as u16, a.max(b) as u16] })
+            })
+            .collect();
+        f.extra.push((*b"GSUB", layout_table(&feats, &lookups)));
+        let glookups = vec![
+            (4u16, 0u16, vec![mark_base_pos(&[27, 28, 29, 30, 37, 38], &all)]),
+            (6, 0, vec![mark_base_pos(&[27, 28, 29, 30, 37, 38], &[27, 28, 29, 30, 37, 38])]),
+            (3, 1, vec![cursive_pos(&all)]),
+            (2, 0, vec![pair_pos(1, &[(2, -50), (3, 70)]), pair_pos(18, &[(37, -30)])]),
+            (1, 0, vec![single_pos(&[37, 38], 10, -20, 0)]),
+        ];
+        let gfeats: Vec<(&[u8; 4], Vec<u16>)> = vec![
+            (b"mark", vec![0]),
+            (b"mkmk", vec![1]),
+            (b"curs", vec![2]),
+            (b"kern", vec![3]),
+            (b"abvm", vec![0, 4]),
+            (b"blwm", vec![4]),
+            (b"dist", vec![3, 4]),
+        ];
+        f.extra.push((*b"GPOS", layout_table(&gfeats, &glookups)));
+        f.extra.push((*b"GDEF", gdef_classes(&[(1, 26, 1), (27, 38, 3), (42, 59, 2)])));
+        let axis = crate::fontgen::var::AxisModel { tag: *b"wght", min: 100 << 16, default: 400 << 16, max: 900 << 16, flags: 0, name_id: 256 };
+        f.extra.push((*b"fvar", crate::fontgen::var::fvar_table(&[axis], &[], 0)));
+        let bytes = f.build();
+        for t in [b"arab", b"syrc", b"deva", b"beng", b"taml", b"mlym", b"sinh", b"khmr", b"mymr", b"thai"] {
+            out.push(("synthetic/multi-script", *t, bytes.clone()));
+        }
+    }
+    // 4. kern only (no GSUB/GPOS): gpos::apply_fallback
+    {
+        let mut f = synthetic_base();
+        f.extra.push((
+            *b"kern",
+            kern_table(&[&[(1, 2, -40), (1, 3, 32767), (2, 1, -32768), (5, 5, 7)], &[(1, 3, 32767), (2, 1, -32768), (3, 4, 12)]]),
+        ));
+        f.extra.push((*b"GDEF", gdef.clone()));
+        out.push(("synthetic/kern-only", *b"latn", f.build()));
+    }
+    // 5. morx only
+    {
+        let mut f = synthetic_base();
+        f.extra.push((*b"morx", morx_table()));
+        f.extra.push((*b"kern", kern_format0(&[(7, 8, -40), (9, 1, 25)])));
+        out.push(("synthetic/morx", *b"latn", f.build()));
+    }
+    out
+}
+
+// ------------------------------------------------------------------------------------------
+// the case model
+// ------------------------------------------------------------------------------------------
+
+#[derive(Clone, Debug, PartialEq)]
+pub enum FaultKind {
+    Set8(u8),
+    Set16(u16),
+    Set32(u32),
+    /// add a small delta to the big-endian u16 at the position
+    Add16(i8),
+    /// table length + delta, as u16
+    Len16(i8),
+    /// copy the u16 found at another position of the same table
+    Copy16(u32),
+    /// zero 2..=16 bytes
+    Zero(u8),
+    /// rename the table in the directory (the font then lacks it)
+    Hide,
+}
+
+#[derive(Clone, Debug, PartialEq)]
+pub struct Fault {
+    /// which layout table (pick over the tables the font has)
+    pub table: u32,
+    /// 0/1: structural position, 2: first 128 bytes, 3: anywhere
+    pub mode: u8,
+    pub pos: u32,
+    pub kind: FaultKind,
+}
+
+#[derive(Clone, Debug, PartialEq)]
+pub enum ScriptSel {
+    Matching,
+    Other(u32),
+    Unknown(u32),
+}
+
+#[derive(Clone, Debug, PartialEq)]
+pub enum LangSel {
+    None,
+    Dflt,
+    FontLang(u32),
+    WellKnown(u32),
+    Random(u32),
+}
+
+#[derive(Clone, Debug, PartialEq)]
+pub enum FeatSel {
+    /// FeatureMask::default() | bits
+    Mask(u64),
+    /// exactly these bits
+    MaskOnly(u64),
+    /// (tag selector, selector kind 0 font / 1 well-known / 2 random, alternate)
+    Custom(Vec<(u32, u8, Option<u8>)>),
+}
+
+#[derive(Clone, Debug, PartialEq)]
+pub struct Case {
+    /// exact (group index, font index) instead of the `group` / `font` selectors (sweep)
+    pub direct: Option<(u16, u16)>,
+    pub group: u32,
+    pub font: u32,
+    pub faults: Vec<Fault>,
+    pub script: ScriptSel,
+    /// draw the text from the alphabet of the *script tag* rather than the font's script
+    pub text_follows_script: bool,
+    pub lang: LangSel,
+    pub feats: FeatSel,
+    /// raw F2Dot14 coordinates (clamped to [-1, 1]); used when the font is variable
+    pub tuple: Option<Vec<i16>>,
+    pub kerning: bool,
+    pub presentation_required: bool,
+    pub rtl: bool,
+    pub vertical: bool,
+    pub max_len: u16,
+    pub text: Vec<Tok>,
+}
+
+const OTHER_SCRIPTS: &[&[u8; 4]] = &[
+    b"arab", b"syrc", b"deva", b"beng", b"guru", b"gujr", b"orya", b"taml", b"telu", b"knda", b"mlym", b"sinh", b"khmr",
+    b"mymr", b"mym2", b"thai", b"lao ", b"latn", b"cyrl", b"grek", b"DFLT", b"dev2", b"bng2", b"mlm2", b"hani", b"kana",
+    b"hebr", b"mong", b"tibt",
+];
+
+const WELL_KNOWN_LANGS: &[&[u8; 4]] = &[
+    b"dflt", b"URD ", b"ARA ", b"FAR ", b"SND ", b"KSH ", b"MAR ", b"NEP ", b"HIN ", b"SAN ", b"BEN ", b"TAM ", b"MAL ",
+    b"MLR ", b"KHM ", b"BRM ", b"THA ", b"LAO ", b"SYR ", b"ROM ", b"TRK ", b"SRB ", b"MKD ", b"NLD ", b"ZHS ", b"JAN ",
+];
+
+const WELL_KNOWN_FEATURES: &[&[u8; 4]] = &[
+    b"fina", b"init", b"medi", b"isol", b"med2", b"fin2", b"fin3", b"rlig", b"liga", b"clig", b"calt", b"ccmp", b"locl",
+    b"rvrn", b"frac", b"numr", b"dnom", b"vert", b"vrt2", b"kern", b"mark", b"mkmk", b"curs", b"dist", b"abvm", b"blwm",
+    b"akhn", b"rphf", b"rkrf", b"pref", b"blwf", b"half", b"abvf", b"pstf", b"cjct", b"vatu", b"pres", b"abvs", b"blws",
+    b"psts", b"haln", b"nukt", b"smcp", b"c2sc", b"salt", b"aalt", b"ss01", b"cv01", b"zero", b"onum", b"tnum", b"dlig",
+    b"hlig", b"mset", b"stch", b"cfar", b"afrc", b"ordn",
+];
+
+const BOUNDARY16: &[u16] = &[0, 1, 2, 3, 4, 6, 8, 0x7F, 0x80, 0xFF, 0x100, 0x7FFF, 0x8000, 0xFFFE, 0xFFFF, 0xFF00];
+
+fn tok_strategy() -> impl Strategy<Value = Tok> {
+    prop_oneof![
+        10 => any::<u32>().prop_map(Tok::Cons),
+        6 => any::<u32>().prop_map(Tok::Halant),
+        3 => any::<u32>().prop_map(Tok::Nukta),
+        3 => any::<u32>().prop_map(Tok::Ra),
+        5 => any::<u32>().prop_map(Tok::Matra),
+        3 => any::<u32>().prop_map(Tok::PreBase),
+        4 => any::<u32>().prop_map(Tok::Mark),
+        4 => any::<u32>().prop_map(Tok::Special),
+        6 => any::<u32>().prop_map(Tok::Block),
+        4 => any::<u32>().prop_map(Tok::Joiner),
+        2 => any::<u32>().prop_map(Tok::GenericMark),
+        2 => any::<u32>().prop_map(Tok::Vs),
+        1 => Just(Tok::Dotted),
+        3 => any::<u32>().prop_map(Tok::Ascii),
+        2 => (any::<u32>(), any::<u32>()).prop_map(|(a, b)| Tok::Foreign(a, b)),
+        2 => any::<u32>().prop_map(Tok::Any),
+        3 => any::<u8>().prop_map(Tok::Repeat),
+        14 => (any::<u8>(), any::<u32>(), any::<u32>(), any::<u32>()).prop_map(|(k, a, b, c)| Tok::Syl(k, a, b, c)),
+    ]
+}
+
+fn fault_strategy() -> impl Strategy<Value = Fault> {
+    let kind = prop_oneof![
+        3 => (0usize..BOUNDARY16.len()).prop_map(|i| FaultKind::Set16(BOUNDARY16[i])),
+        2 => any::<u16>().prop_map(FaultKind::Set16),
+        2 => any::<u8>().prop_map(FaultKind::Set8),
+        1 => prop_oneof![Just(0u32), Just(1), Just(0xFFFF), Just(0x10000), Just(0x7FFF_FFFF), Just(0xFFFF_FFFF), any::<u32>()]
+            .prop_map(FaultKind::Set32),
+        4 => prop_oneof![Just(-2i8), Just(-1), Just(1), Just(2), Just(4), Just(-4), -64i8..64].prop_map(FaultKind::Add16),
+        1 => (-4i8..=4).prop_map(FaultKind::Len16),
+        2 => any::<u32>().prop_map(FaultKind::Copy16),
+        1 => any::<u8>().prop_map(FaultKind::Zero),
+        1 => Just(FaultKind::Hide),
+    ];
+    (any::<u32>(), 0u8..4, any::<u32>(), kind).prop_map(|(table, mode, pos, kind)| Fault { table, mode, pos, kind })
+}
+
+fn case_strategy(max_toks: usize, max_len: u16) -> impl Strategy<Value = Case> {
+    let faults = prop_oneof![
+        4 => Just(Vec::new()),
+        6 => proptest::collection::vec(fault_strategy(), 1..=4),
+    ];
+    let script = prop_oneof![
+        6 => Just(ScriptSel::Matching),
+        3 => any::<u32>().prop_map(ScriptSel::Other),
+        1 => any::<u32>().prop_map(ScriptSel::Unknown),
+    ];
+    let lang = prop_oneof![
+        3 => Just(LangSel::None),
+        3 => Just(LangSel::Dflt),
+        3 => any::<u32>().prop_map(LangSel::FontLang),
+        1 => any::<u32>().prop_map(LangSel::WellKnown),
+        1 => any::<u32>().prop_map(LangSel::Random),
+    ];
+    let feats = prop_oneof![
+        3 => Just(FeatSel::Mask(0)),
+        4 => (any::<u64>(), any::<u64>()).prop_map(|(a, b)| FeatSel::Mask(a & b)),
+        1 => any::<u64>().prop_map(FeatSel::Mask),
+        1 => any::<u64>().prop_map(FeatSel::MaskOnly),
+        3 => proptest::collection::vec((any::<u32>(), 0u8..3, proptest::option::weighted(0.3, any::<u8>())), 0..8)
+            .prop_map(FeatSel::Custom),
+    ];
+    let tuple = proptest::option::weighted(
+        0.6,
+        proptest::collection::vec(prop_oneof![Just(0i16), Just(16384), Just(-16384), -16384i16..=16384], 0..5),
+    );
+    let text = proptest::collection::vec(tok_strategy(), 0..=max_toks);
+    (
+        (any::<u32>(), any::<u32>(), faults, script, any::<bool>(), lang),
+        (feats, tuple, any::<bool>(), any::<bool>(), any::<bool>(), proptest::bool::weighted(0.2)),
+        text,
+    )
+        .prop_map(move |((group, font, faults, script, tfs, lang), (feats, tuple, kerning, pres, rtl, vertical), text)| Case {
+            direct: None,
+            group,
+            font,
+            faults,
+            script,
+            text_follows_script: tfs,
+            lang,
+            feats,
+            tuple,
+            kerning,
+            presentation_required: pres,
+            rtl,
+            vertical,
+            max_len,
+            text,
+        })
+}
+
+// ---- libFuzzer decoding (structure-aware: the fuzzer mutates choices, not raw font bytes)
+
+fn u_tok(u: &mut Unstructured) -> arbitrary::Result<Tok> {
+    Ok(match u.int_in_range(0u8..=24)? {
+        0..=3 => Tok::Cons(u.arbitrary()?),
+        4..=5 => Tok::Halant(u.arbitrary()?),
+        6 => Tok::Nukta(u.arbitrary()?),
+        7 => Tok::Ra(u.arbitrary()?),
+        8..=9 => Tok::Matra(u.arbitrary()?),
+        10 => Tok::PreBase(u.arbitrary()?),
+        11 => Tok::Mark(u.arbitrary()?),
+        12 => Tok::Special(u.arbitrary()?),
+        13..=14 => Tok::Block(u.arbitrary()?),
+        15 => Tok::Joiner(u.arbitrary()?),
+        16 => Tok::GenericMark(u.arbitrary()?),
+        17 => Tok::Vs(u.arbitrary()?),
+        18 => Tok::Dotted,
+        19 => Tok::Ascii(u.arbitrary()?),
+        20 => Tok::Foreign(u.arbitrary()?, u.arbitrary()?),
+        21 => Tok::Any(u.arbitrary()?),
+        22 => Tok::Repeat(u.arbitrary()?),
+        _ => Tok::Syl(u.arbitrary()?, u.arbitrary()?, u.arbitrary()?, u.arbitrary()?),
+    })
+}
+
+fn u_fault(u: &mut Unstructured) -> arbitrary::Result<Fault> {
+    let table = u.arbitrary()?;
+    let mode = u.int_in_range(0u8..=3)?;
+    let pos = u.arbitrary()?;
+    let kind = match u.int_in_range(0u8..=8)? {
+        0 => FaultKind::Set16(BOUNDARY16[u.int_in_range(0..=BOUNDARY16.len() - 1)?]),
+        1 => FaultKind::Set16(u.arbitrary()?),
+        2 => FaultKind::Set8(u.arbitrary()?),
+        3 => FaultKind::Set32(u.arbitrary()?),
+        4 => FaultKind::Add16(u.arbitrary()?),
+        5 => FaultKind::Len16(u.int_in_range(-4i8..=4)?),
+        6 => FaultKind::Copy16(u.arbitrary()?),
+        7 => FaultKind::Zero(u.arbitrary()?),
+        _ => FaultKind::Hide,
+    };
+    Ok(Fault { table, mode, pos, kind })
+}
+
+/// bytes → (font choice, script, text, flags)
+pub fn case_from_bytes(data: &[u8]) -> arbitrary::Result<Case> {
+    let mut u = Unstructured::new(data);
+    let group = u.arbitrary()?;
+    let font = u.arbitrary()?;
+    let nf = u.int_in_range(0usize..=4)?;
+    let mut faults = Vec::new();
+    for _ in 0..nf {
+        faults.push(u_fault(&mut u)?);
+    }
+    let script = match u.int_in_range(0u8..=3)? {
+        0 | 1 => ScriptSel::Matching,
+        2 => ScriptSel::Other(u.arbitrary()?),
+        _ => ScriptSel::Unknown(u.arbitrary()?),
+    };
+    let flags: u8 = u.arbitrary()?;
+    let lang = match u.int_in_range(0u8..=4)? {
+        0 => LangSel::None,
+        1 => LangSel::Dflt,
+        2 => LangSel::FontLang(u.arbitrary()?),
+        3 => LangSel::WellKnown(u.arbitrary()?),
+        _ => LangSel::Random(u.arbitrary()?),
+    };
+    let feats = match u.int_in_range(0u8..=3)? {
+        0 => FeatSel::Mask(0),
+        1 => FeatSel::Mask(u.arbitrary()?),
+        2 => FeatSel::MaskOnly(u.arbitrary()?),
+        _ => {
+            let n = u.int_in_range(0usize..=8)?;
+            let mut v = Vec::new();
+            for _ in 0..n {
+                let alt: u8 = u.arbitrary()?;
+                v.push((u.arbitrary()?, u.int_in_range(0u8..=2)?, if alt & 3 == 0 { Some(alt >> 2) } else { None }));
+            }
+            FeatSel::Custom(v)
+        }
+    };
+    let tuple = if flags & 0x20 != 0 {
+        let n = u.int_in_range(0usize..=4)?;
+        let mut v = Vec::new();
+        for _ in 0..n {
+            v.push(u.int_in_range(-16384i16..=16384)?);
+        }
+        Some(v)
+    } else {
+        None
+    };
+    let mut text = Vec::new();
+    while !u.is_empty() && text.len() < 64 {
+        text.push(u_tok(&mut u)?);
+    }
+    Ok(Case {
+        direct: None,
+        group,
+        font,
+        faults,
+        script,
+        text_follows_script: flags & 0x40 != 0,
+        lang,
+        feats,
+        tuple,
+        kerning: flags & 1 != 0,
+        presentation_required: flags & 2 != 0,
+        rtl: flags & 4 != 0,
+        vertical: flags & 8 != 0,
+        max_len: 200,
+        text,
+    })
+}
+
+// ------------------------------------------------------------------------------------------
+// the check
+// ------------------------------------------------------------------------------------------
+
+fn fail(what: &str, msg: String) -> Fail {
+    Fail::new(format!("C02:{}", what), msg)
+}
+
+fn w16(data: &mut [u8], at: usize, v: u16) {
+    if let Some(s) = data.get_mut(at..at + 2) {
+        s.copy_from_slice(&v.to_be_bytes());
+    }
+}
+
+/// Apply the faults; returns a description of every byte range actually changed.
+fn apply_faults(entry: &FontEntry, faults: &[Fault], data: &mut Vec<u8>) -> Vec<String> {
+    let mut log = Vec::new();
+    if entry.tables.is_empty() {
+        return log;
+    }
+    for f in faults {
+        let t = &entry.tables[pick(entry.tables.len(), f.table)];
+        if t.len < 2 {
+            continue;
+        }
+        let tag = String::from_utf8_lossy(&t.tag).to_string();
+        if f.kind == FaultKind::Hide {
+            if let Some(b) = data.get_mut(t.record_at) {
+                if b.is_ascii_uppercase() || b.is_ascii_lowercase() {
+                    *b ^= 0x20;
+                    log.push(format!("{}: hidden", tag));
+                }
+            }
+            continue;
+        }
+        let rel = |mode: u8, pos: u32| -> usize {
+            match mode {
+                0 | 1 if !t.hot.is_empty() => t.hot[pick(t.hot.len(), pos)] as usize,
+                0 | 1 | 2 => pick(t.len.min(128), pos) & !1,
+                _ => {
+                    let p = pick(t.len, pos);
+                    if pos & 3 != 0 {
+                        p & !1
+                    } else {
+                        p
+                    }
+                }
+            }
+        };
+        let at = rel(f.mode, f.pos).min(t.len - 1);
+        let abs = t.offset + at;
+        let avail = t.len - at;
+        let before: Vec<u8> = data[abs..abs + avail.min(4)].to_vec();
+        let old16 = if avail >= 2 { u16::from_be_bytes([data[abs], data[abs + 1]]) } else { 0 };
+        match &f.kind {
+            FaultKind::Set8(v) => data[abs] = *v,
+            FaultKind::Set16(v) if avail >= 2 => w16(data, abs, *v),
+            FaultKind::Set32(v) if avail >= 4 => data[abs..abs + 4].copy_from_slice(&v.to_be_bytes()),
+            FaultKind::Add16(d) if avail >= 2 => w16(data, abs, old16.wrapping_add(*d as i16 as u16)),
+            FaultKind::Len16(d) if avail >= 2 => w16(data, abs, (t.len as i64 + *d as i64) as u16),
+            FaultKind::Copy16(from) if avail >= 2 => {
+                let src = t.offset + rel(f.mode ^ 1, *from).min(t.len - 2);
+                let v = u16::from_be_bytes([data[src], data[src + 1]]);
+                w16(data, abs, v);
+            }
+            FaultKind::Zero(n) => {
+                let n = (2 + (*n as usize % 15)).min(avail);
+                for b in &mut data[abs..abs + n] {
+                    *b = 0;
+                }
+            }
+            _ => {}
+        }
+        let after = &data[abs..abs + avail.min(4)];
+        if before.as_slice() != after || matches!(f.kind, FaultKind::Zero(_)) {
+            log.push(format!("{}+{}: {} -> {} ({:?})", tag, at, hex::encode(&before), hex::encode(after), f.kind));
+        }
+    }
+    log
+}
+
+fn resolve_tag(sel: u32, kind: u8, entry: &FontEntry) -> u32 {
+    match kind {
+        0 if !entry.feature_tags.is_empty() => entry.feature_tags[pick(entry.feature_tags.len(), sel)],
+        0 | 1 => tagv(WELL_KNOWN_FEATURES[pick(WELL_KNOWN_FEATURES.len(), sel)]),
+        _ => sel,
+    }
+}
+
+pub fn check_case(case: &Case, rec: &mut Rec) -> CaseResult {
+    let set = fonts();
+    if set.groups.is_empty() {
+        return Err(fail("no-fixtures", "no fixture font could be read".into()));
+    }
+    // the synthetic group (last) gets ~15 % of the cases: its tables are tiny, so faults and
+    // unusual strings reach every lookup
+    let ng = set.groups.len();
+    let group = if let Some((g, _)) = case.direct {
+        &set.groups[(g as usize).min(ng - 1)]
+    } else if case.group >= 0xD999_9999 || ng == 1 {
+        &set.groups[ng - 1]
+    } else {
+        &set.groups[pick(ng - 1, ((case.group as u64 * 0x1_0000_0000u64) / 0xD999_9999u64).min(u32::MAX as u64) as u32)]
+    };
+    let entry = match case.direct {
+        Some((_, f)) => &group[(f as usize).min(group.len() - 1)],
+        None => &group[pick(group.len(), case.font)],
+    };
+
+    // ---- font bytes
+    let mut owned: Option<Vec<u8>> = None;
+    let mut fault_log = Vec::new();
+    if !case.faults.is_empty() {
+        let mut data = entry.bytes.clone();
+        fault_log = apply_faults(entry, &case.faults, &mut data);
+        if data != entry.bytes {
+            owned = Some(data);
+        } else {
+            fault_log.clear();
+        }
+    }
+    let intact = owned.is_none();
+    let bytes: &[u8] = owned.as_deref().unwrap_or(&entry.bytes);
+
+    // ---- arguments
+    let matching = tagv(&entry.script);
+    let (script_tag, script_class) = match case.script {
+        ScriptSel::Matching => (matching, "matching"),
+        ScriptSel::Other(r) => {
+            let t = tagv(OTHER_SCRIPTS[pick(OTHER_SCRIPTS.len(), r)]);
+            (t, if t == matching { "matching" } else { "other" })
+        }
+        ScriptSel::Unknown(r) => (r, "unknown"),
+    };
+    let alphabet = if case.text_follows_script && script_class == "other" {
+        alphabet_for(&script_tag.to_be_bytes())
+    } else if entry.synthetic && &entry.script == b"latn" {
+        &text::SYNTHETIC
+    } else {
+        alphabet_for(&entry.script)
+    };
+    let chars = text::resolve(&case.text, alphabet, case.max_len as usize);
+    let text: String = chars.iter().collect();
+    let lang = match case.lang {
+        LangSel::None => None,
+        LangSel::Dflt => Some(tagv(b"DFLT")),
+        LangSel::FontLang(r) if !entry.lang_tags.is_empty() => Some(entry.lang_tags[pick(entry.lang_tags.len(), r)]),
+        LangSel::FontLang(r) | LangSel::WellKnown(r) => Some(tagv(WELL_KNOWN_LANGS[pick(WELL_KNOWN_LANGS.len(), r)])),
+        LangSel::Random(r) => Some(r),
+    };
+    let features = match &case.feats {
+        FeatSel::Mask(bits) => Features::Mask(FeatureMask::default() | FeatureMask::from_bits_truncate(*bits)),
+        FeatSel::MaskOnly(bits) => Features::Mask(FeatureMask::from_bits_truncate(*bits)),
+        FeatSel::Custom(v) => Features::Custom(
+            v.iter()
+                .map(|(sel, kind, alt)| FeatureInfo {
+                    feature_tag: resolve_tag(*sel, *kind, entry),
+                    alternate: alt.map(usize::from),
+                })
+                .collect(),
+        ),
+    };
+    let presentation = if case.presentation_required { MatchingPresentation::Required } else { MatchingPresentation::NotRequired };
+    let direction = if case.rtl { TextDirection::RightToLeft } else { TextDirection::LeftToRight };
+
+    rec.hash_bytes(entry.name.as_bytes());
+    rec.hash_bytes(format!("{:?}|{:?}|{}|{:?}|{:?}|{:?}|{:?}", fault_log, chars, script_tag, lang, features, case.tuple, (case.kerning, case.presentation_required, case.rtl, case.vertical)).as_bytes());
+    rec.artefact("font", entry.name.as_bytes());
+    rec.artefact("faults", fault_log.join("\n").as_bytes());
+    rec.artefact("text", text.as_bytes());
+    rec.artefact(
+        "args",
+        format!(
+            "script={:?} lang={:?} features={:?} tuple={:?} kerning={} presentation={:?} direction={:?} vertical={}",
+            String::from_utf8_lossy(&script_tag.to_be_bytes()),
+            lang.map(|l| String::from_utf8_lossy(&l.to_be_bytes()).to_string()),
+            features,
+            case.tuple,
+            case.kerning,
+            presentation,
+            direction,
+            case.vertical
+        )
+        .as_bytes(),
+    );
+    rec.sample(|| {
+        format!(
+            "{} [{}] text={:?} script={:?} lang={:?} feats={:?} faults={:?}",
+            entry.name,
+            if intact { "intact" } else { "corrupted" },
+            text,
+            String::from_utf8_lossy(&script_tag.to_be_bytes()),
+            lang,
+            case.feats,
+            fault_log
+        )
+    });
+    if trace_enabled() {
+        trace(format!(
+            "C02-TRACE font={} intact={} faults={:?} text={:?} ({}) script={:?} lang={:?} features={:?} tuple={:?} kerning={} presentation={:?} direction={:?} vertical={}",
+            entry.name,
+            intact,
+            fault_log,
+            text,
+            chars.iter().map(|c| format!("U+{:04X}", *c as u32)).collect::<Vec<_>>().join(" "),
+            String::from_utf8_lossy(&script_tag.to_be_bytes()),
+            lang.map(|l| String::from_utf8_lossy(&l.to_be_bytes()).to_string()),
+            features,
+            case.tuple,
+            case.kerning,
+            presentation,
+            direction,
+            case.vertical
+        ));
+    }
+    rec.guard_alloc(bytes.len());
+
+    // ---- load
+    let loaded = ReadScope::new(bytes)
+        .read::<FontData<'_>>()
+        .map_err(|e| format!("{:?}", e))
+        .and_then(|fd| fd.table_provider(0).map_err(|e| format!("{:?}", e)))
+        .and_then(|p| Font::new(p).map_err(|e| format!("{:?}", e)));
+    let mut font = match loaded {
+        Ok(f) => f,
+        Err(e) => {
+            // faults are confined to layout table bodies (or hide a layout table): loading
+            // never looks at them, so this is a fixture/harness problem, not a C02 case
+            return Err(fail("fixture-does-not-load", format!("{}: {:?}", entry.name, e)));
+        }
+    };
+    let num_glyphs = font.num_glyphs();
+
+    // ---- map
+    let glyphs = font.map_glyphs(&text, script_tag, presentation);
+    let mut allowed: BTreeSet<char> = BTreeSet::new();
+    allowed.insert('\u{25CC}');
+    for g in &glyphs {
+        allowed.extend(g.unicodes.iter().copied());
+    }
+    let mapped = glyphs.iter().filter(|g| g.glyph_index != 0).count();
+    let submitted = glyphs.len();
+
+    // ---- tuple
+    let mut owned_tuple = None;
+    if let (Some(vals), true) = (&case.tuple, font.is_variable()) {
+        let data: Result<std::borrow::Cow<'_, [u8]>, _> = font.font_table_provider.read_table_data(allsorts::tag::FVAR);
+        if let Ok(data) = data {
+            if let Ok(fvar) = ReadScope::new(&data[..]).read::<FvarTable<'_>>() {
+                let n = usize::from(fvar.axis_count());
+                let coords: Vec<F2Dot14> = (0..n).map(|i| F2Dot14::from_raw(vals.get(i).copied().unwrap_or(0).clamp(-16384, 16384))).collect();
+                owned_tuple = fvar.owned_tuple(&coords);
+            }
+        }
+    }
+    let tuple = owned_tuple.as_ref().map(|t| t.as_tuple());
+
+    // ---- shape
+    let (infos, shaped_ok) = match font.shape(glyphs, script_tag, lang, &features, tuple, case.kerning) {
+        Ok(infos) => (infos, true),
+        Err((_e, infos)) => (infos, false),
+    };
+
+    if trace_enabled() {
+        trace(format!(
+            "C02-TRACE   -> {} {:?}",
+            if shaped_ok { "Ok" } else { "Err" },
+            infos.iter().map(|i| (i.glyph.glyph_index, i.glyph.unicodes.iter().collect::<String>(), i.kerning, i.placement)).collect::<Vec<_>>()
+        ));
+    }
+    // ---- the returned run
+    let len = infos.len();
+    let mut n_anchor = 0usize;
+    let mut n_cursive = 0usize;
+    let mut n_overprint = 0usize;
+    let mut n_distance = 0usize;
+    for (i, info) in infos.iter().enumerate() {
+        let target = match info.placement {
+            Placement::None => None,
+            Placement::Distance(..) => {
+                n_distance += 1;
+                None
+            }
+            Placement::MarkAnchor(b, _, _) => {
+                n_anchor += 1;
+                Some(("MarkAnchor", b))
+            }
+            Placement::MarkOverprint(b) => {
+                n_overprint += 1;
+                Some(("MarkOverprint", b))
+            }
+            Placement::CursiveAnchor(b, _, _, _) => {
+                n_cursive += 1;
+                Some(("CursiveAnchor", b))
+            }
+        };
+        if let Some((what, b)) = target {
+            if b >= len {
+                return Err(fail(
+                    "attachment-outside-run",
+                    format!("{} [{}] text {:?}: glyph {} has {}({}) but the run has {} glyphs (shape returned {})", entry.name, if intact { "intact" } else { "corrupted" }, text, i, what, b, len, if shaped_ok { "Ok" } else { "Err" }),
+                ));
+            }
+        }
+        for ch in info.glyph.unicodes.iter() {
+            if !allowed.contains(ch) {
+                return Err(fail(
+                    "foreign-character",
+                    format!("{} [{}] text {:?} script {:?}: glyph {} (id {}) is attributed U+{:04X}, which is neither in the submitted run nor U+25CC", entry.name, if intact { "intact" } else { "corrupted" }, text, String::from_utf8_lossy(&script_tag.to_be_bytes()), i, info.glyph.glyph_index, *ch as u32),
+                ));
+            }
+        }
+        if intact && info.glyph.glyph_index >= num_glyphs {
+            return Err(fail(
+                "glyph-id-out-of-range",
+                format!("{} (intact) text {:?} script {:?}: glyph {} has id {} >= numGlyphs {} (shape returned {})", entry.name, text, String::from_utf8_lossy(&script_tag.to_be_bytes()), i, info.glyph.glyph_index, num_glyphs, if shaped_ok { "Ok" } else { "Err" }),
+            ));
+        }
+    }
+
+    // ---- positions
+    let pos_ok = {
+        let mut layout = GlyphLayout::new(&mut font, &infos, direction, case.vertical);
+        match layout.glyph_positions() {
+            Ok(p) => {
+                if p.len() != len {
+                    return Err(fail(
+                        "positions-length",
+                        format!("{} text {:?}: glyph_positions returned {} positions for {} glyphs", entry.name, text, p.len(), len),
+                    ));
+                }
+                true
+            }
+            Err(_) => false,
+        }
+    };
+
+    // ---- accounting
+    rec.set_nontrivial(!chars.is_empty() && mapped >= 1 && entry.has_gsub_or_gpos);
+    let kind = if entry.synthetic { "synthetic" } else if intact { "intact" } else { "corrupted" };
+    let kind = if entry.synthetic && !intact { "synthetic-corrupted" } else { kind };
+    rec.class(&format!("font:{}", kind));
+    rec.class(&format!("group:{}:{}", entry.group, if intact { "intact" } else { "corrupted" }));
+    rec.class(&format!("scripttag:{}", script_class));
+    rec.class(&format!("shaper:{}", shaper_name(script_tag)));
+    rec.class(if shaped_ok { "shape:ok" } else { "shape:err" });
+    rec.class(&format!("shape:{}:{}", if intact { "intact" } else { "corrupted" }, if shaped_ok { "ok" } else { "err" }));
+    rec.class(if pos_ok { "positions:ok" } else { "positions:err" });
+    rec.class(match case.feats {
+        FeatSel::Custom(_) => "features:custom",
+        _ => "features:mask",
+    });
+    rec.class(match lang {
+        None => "lang:none",
+        Some(l) if l == tagv(b"DFLT") => "lang:DFLT",
+        Some(_) => "lang:other",
+    });
+    rec.class_if(tuple.is_some(), "tuple:some");
+    rec.class_if(chars.is_empty(), "text:empty");
+    rec.class_if(mapped == 0 && !chars.is_empty(), "text:nothing-mapped");
+    rec.class_if(text::has_halant(&chars), "text:virama");
+    rec.class_if(text::has_joiner(&chars), "text:joiner");
+    rec.class_if(text::has_vs(&chars), "text:variation-selector");
+    rec.class_if(text::starts_with_mark(&chars), "text:lone-mark");
+    rec.class_if(text::has_foreign(&chars, alphabet), "text:foreign");
+    rec.class_if(chars.len() > 32, "text:long");
+    rec.class_if(len != submitted, "run:length-changed");
+    rec.class_if(infos.iter().any(|i| i.glyph.unicodes.len() > 1), "run:ligature");
+    rec.class_if(infos.iter().any(|i| i.glyph.unicodes.contains(&'\u{25CC}')) && !chars.contains(&'\u{25CC}'), "run:dotted-circle-inserted");
+    rec.class_if(n_anchor > 0, "placement:mark-anchor");
+    rec.class_if(n_cursive > 0, "placement:cursive");
+    rec.class_if(n_overprint > 0, "placement:overprint");
+    rec.class_if(n_distance > 0, "placement:distance");
+    rec.class_if(infos.iter().any(|i| i.kerning != 0), "placement:kerning");
+    rec.class_if(case.vertical, "vertical");
+    Ok(())
+}
+
+/// VERIF_C02_TRACE=1 prints every case before it is shaped (for triage of hangs / aborts);
+/// VERIF_C02_TRACE=<path> appends the lines to that file instead (workers' stderr is captured).
+fn trace_target() -> &'static Option<String> {
+    static T: OnceLock<Option<String>> = OnceLock::new();
+    T.get_or_init(|| std::env::var("VERIF_C02_TRACE").ok().filter(|v| !v.is_empty() && v != "0"))
+}
+
+fn trace_enabled() -> bool {
+    trace_target().is_some()
+}
+
+fn trace(line: String) {
+    match trace_target() {
+        Some(p) if p != "1" => {
+            use std::io::Write;
+            if let Ok(mut f) = std::fs::OpenOptions::new().create(true).append(true).open(p) {
+                let _ = writeln!(f, "{}", line);
+            }
+        }
+        Some(_) => eprintln!("{}", line),
+        None => {}
+    }
+}
+
+fn shaper_name(tag: u32) -> &'static str {
+    match &tag.to_be_bytes() {
+        b"arab" => "arabic",
+        b"syrc" => "syriac",
+        b"deva" | b"beng" | b"guru" | b"gujr" | b"orya" | b"taml" | b"telu" | b"knda" | b"mlym" | b"sinh" => "indic",
+        b"khmr" => "khmer",
+        b"mymr" | b"mym2" => "myanmar",
+        b"thai" | b"lao " => "thai-lao",
+        _ => "default",
+    }
+}
+
+// ------------------------------------------------------------------------------------------
+// deterministic sweep: every string of `n` characters over each script's key inventory
+// ------------------------------------------------------------------------------------------
+
+struct SweepItem {
+    group: u16,
+    font: u16,
+    inventory: Vec<u32>,
+}
+
+fn sweep_plan(reduced: bool) -> Vec<SweepItem> {
+    let set = fonts();
+    let mut plan = Vec::new();
+    for (gi, g) in set.groups.iter().enumerate() {
+        for (fi, e) in g.iter().enumerate() {
+            let wanted = if e.synthetic { e.name.starts_with("synthetic/multi-script") } else { fi == 0 && e.group != "latin" && e.group != "variable" };
+            if wanted {
+                plan.push(SweepItem { group: gi as u16, font: fi as u16, inventory: text::key_inventory(alphabet_for(&e.script), reduced) });
+            }
+        }
+    }
+    plan
+}
+
+fn sweep_total(plan: &[SweepItem], n: u32) -> u64 {
+    plan.iter().map(|p| (p.inventory.len() as u64).pow(n)).sum()
+}
+
+fn sweep_case(plan: &[SweepItem], n: u32, mut i: u64) -> Option<Case> {
+    for p in plan {
+        let k = p.inventory.len() as u64;
+        let count = k.pow(n);
+        if i < count {
+            let mut text = Vec::new();
+            for _ in 0..n {
+                text.push(Tok::Lit(p.inventory[(i % k) as usize]));
+                i /= k;
+            }
+            return Some(Case {
+                direct: Some((p.group, p.font)),
+                group: 0,
+                font: 0,
+                faults: Vec::new(),
+                script: ScriptSel::Matching,
+                text_follows_script: false,
+                lang: LangSel::None,
+                feats: FeatSel::Mask(0),
+                tuple: None,
+                kerning: true,
+                presentation_required: false,
+                rtl: false,
+                vertical: false,
+                max_len: 16,
+                text,
+            });
+        }
+        i -= count;
+    }
+    None
+}
 
 impl Property for C02 {
     fn id(&self) -> &'static str {
         "C02"
     }
     fn rule(&self) -> String {
-        "not implemented".to_string()
+        "case = (fixture or synthetic font, 0-4 byte faults inside GSUB/GPOS/GDEF/kern/morx bodies or a hidden layout table, \
+         token-generated text of 0-32 (thorough 0-200) scalars from the script's alphabet biased to viramas/nuktas/reph/pre-base \
+         forms/lone marks/joiners/foreign characters, script tag matching|other|unknown, language, Features::Mask|Custom, \
+         normalised tuple for variable fonts, kerning, presentation, direction, vertical); pipeline map_glyphs -> shape -> \
+         glyph_positions. Non-trivial: text non-empty, at least one glyph mapped (id != 0), font has GSUB or GPOS. Distinct: \
+         hash of (font, applied faults, resolved text, script, language, features, tuple, flags)."
+            .to_string()
     }
-    fn run(&self, _ctx: &mut Ctx) {}
+    fn assumptions(&self) -> Vec<String> {
+        vec![
+            "allsorts does not verify table checksums, so faults inside layout table bodies leave the font loadable (checked: a load failure is reported)".into(),
+            "the run submitted for shaping is the output of Font::map_glyphs (after text preprocessing)".into(),
+            "build profile has debug-assertions and overflow-checks on: arithmetic overflow counts as a panic".into(),
+            "hang / stack overflow / abort / size-field allocation are detected by the engine at process level".into(),
+        ]
+    }
+    fn run(&self, ctx: &mut Ctx) {
+        let thorough = ctx.thorough();
+        let n = ctx.cases(240_000, 3_600_000);
+        if thorough {
+            ctx.section("shape", n, case_strategy(40, 200), |c, rec| check_case(c, rec));
+        } else {
+            ctx.section("shape", n, case_strategy(10, 32), |c, rec| check_case(c, rec));
+        }
+        // seed-independent: all strings of 3 key characters (thorough: also of 4 over a reduced
+        // inventory) per script, on one fixture per script and on the multi-script font
+        let plan = sweep_plan(false);
+        let total = sweep_total(&plan, 3);
+        ctx.enumerate("key-triples", total, true, |i, rec| match sweep_case(&plan, 3, i) {
+            Some(c) => {
+                rec.class("sweep");
+                check_case(&c, rec)
+            }
+            None => Ok(()),
+        });
+        if thorough {
+            let plan = sweep_plan(true);
+            let total = sweep_total(&plan, 4);
+            ctx.enumerate("key-quads", total, true, |i, rec| match sweep_case(&plan, 4, i) {
+                Some(c) => {
+                    rec.class("sweep");
+                    check_case(&c, rec)
+                }
+                None => Ok(()),
+            });
+        }
+    }
 }
